@@ -229,11 +229,19 @@ def run(tier):
             chk.count("model-refused:" + str(ans.get("error"))[:40])
             continue
         bad = None
+        singular = False
         if mode == "seq":
             for n, (tag_val, row) in enumerate(zip(comp["values"], ans["seq"])):
                 tag, sv = tag_val
                 want = Fr(row[comp["i"]])
                 exact = bool(comp.get("exact"))
+                if tag == "undefined-limit":
+                    # 0/0 at the parameter point of a symbolic entry; sv is the limit of the closed form there
+                    if Fr(sv) == want:
+                        singular = True
+                        continue
+                    bad = (n, sv, H.fr_str(want), "undefined-at-parameter-point-and-limit-wrong")
+                    break
                 if tag == "q" and exact:
                     if Fr(sv) != want:
                         bad = (n, sv, H.fr_str(want), "wrong-value")
@@ -267,6 +275,14 @@ def run(tier):
                 chk.nontrivial.add(key)
                 chk.sample({"A": s["A"], "v": s["v"], "consts": s["consts"], "force_cyclic": fc, "component": comp["i"],
                             "closed_form": comp["closed_form"][:300], "window": ans["window"], "n0": n0, "mode": mode}, limit=4)
+        if singular and not bad:
+            rec = {"system": s, "mismatches": [{"kind": "removable-singularity"}]}
+            fid = attribute(PROP, rec)
+            if fid:
+                chk.known(fid[0], fid[1])
+                chk.count("removable-singularity-at-parameter-point")
+            else:
+                bad = (0, "0/0", "", "closed form undefined at the parameter point")
         if bad:
             rec = {"system": s, "force_cyclic": fc, "component": comp, "bad": bad}
             fid = attribute(PROP, rec)
